@@ -54,5 +54,7 @@ func DialWithTLS(c websocket.DialConfig) (websocket.Conn, error) {
 	if err != nil {
 		return nil, err
 	}
+	// 既定の読み込み上限(32KiB)を解除します（coderバックエンドと同じ挙動）。
+	wsconn.SetReadLimit(-1)
 	return New(wsconn), nil
 }
